@@ -129,67 +129,93 @@ End WithCfg.
 
 (* ------------------------------------------------------------------ Delay split *)
 
-Definition convertible (fixed : bool) (d : delay) : Prop :=
-  exists v, value_as_default_unit fixed d = Ok (Some v).
-
-Lemma delay_rows_ok fixed o lbl ids k ds :
-  o <> None -> Forall (convertible fixed) ds ->
-  exists l, delay_rows fixed o lbl ids k ds = Ok l /\ Forall (fun r => s_orig r = lbl) l.
+Lemma mapM_total {A B} (f : A -> res B) l :
+  Forall (fun x => exists y, f x = Ok y) l -> exists ys, mapM f l = Ok ys.
 Proof.
-  intros Ho H. revert k. induction H as [|d ds [v Hv] _ IH]; intros k; cbn [delay_rows].
-  - eexists; split; [reflexivity|constructor].
-  - rewrite Hv. cbn [bind]. destruct o as [z|]; [|congruence]. cbn [bind].
-    destruct (IH (S k)) as (l & Hl & Hf). rewrite Hl. cbn [bind].
-    eexists; split; [reflexivity|]. constructor; [reflexivity|exact Hf].
+  induction 1 as [|x l [y Hy] _ [ys IH]]; cbn [mapM]; [eauto|].
+  rewrite Hy. cbn [bind]. rewrite IH. cbn [bind]. eauto.
 Qed.
 
-Lemma delay_rows_orig fixed o lbl ids k ds l :
-  delay_rows fixed o lbl ids k ds = Ok l -> Forall (fun r => s_orig r = lbl) l.
+(* a successful mapM is a map *)
+Lemma mapM_map {A B} (f : A -> res B) (dflt : A -> B) l ys :
+  mapM f l = Ok ys ->
+  ys = map (fun x => match f x with Ok y => y | Exn _ => dflt x end) l /\
+  Forall (fun x => exists y, f x = Ok y) l.
 Proof.
-  revert k l; induction ds as [|d ds IH]; intros k l H; cbn [delay_rows] in H.
-  - inversion H; constructor.
-  - apply bind_ok in H as (v & _ & H). apply bind_ok in H as (z & _ & H).
-    destruct v as [v|]; [|discriminate].
-    apply bind_ok in H as (rest & Hr & H). inversion H; subst.
-    constructor; [reflexivity|]. eapply IH; eauto.
+  revert ys; induction l as [|x l IH]; intros ys H; cbn [mapM] in H.
+  - inversion H; subst. split; [reflexivity|constructor].
+  - apply bind_ok in H as (y & Hy & H). apply bind_ok in H as (ys' & Hys & H). inversion H; subst.
+    destruct (IH ys' Hys) as (-> & Hf). cbn [map]. rewrite Hy. split; [reflexivity|]. constructor; eauto.
 Qed.
 
-Definition drow_ok (fixed : bool) (d : drow) : Prop :=
-  b_delaytext (dr_body d) = true ->
-  dr_onset d <> None /\ Forall (convertible fixed) (b_delays (dr_body d)).
+Definition decision_total (cfg : config) (o : option Z) (d : delay) : Prop :=
+  exists x, delay_decision cfg o d = Ok x.
 
-Lemma pseudo_rows_ok fixed data :
-  Forall (drow_ok fixed) data ->
-  exists l, pseudo_rows fixed data = Ok l /\
-            Forall (fun r => exists d, In d data /\ s_orig r = dr_label d) l.
+Lemma delay_rows_total cfg o lbl ids k ds :
+  Forall (decision_total cfg o) ds -> exists r, delay_rows cfg o lbl ids k ds = Ok r.
 Proof.
-  induction 1 as [|d data Hd _ IH]; cbn [pseudo_rows].
-  - eexists; split; [reflexivity|constructor].
-  - destruct IH as (rest & Hrest & Hf).
-    assert (exists here, (if b_delaytext (dr_body d)
-                          then delay_rows fixed (dr_onset d) (dr_label d) (ids_of (dr_body d)) 0 (b_delays (dr_body d))
-                          else Ok []) = Ok here /\ Forall (fun r => s_orig r = dr_label d) here) as (here & Hh & Hfh).
-    { destruct (b_delaytext (dr_body d)) eqn:E.
-      - destruct (Hd E) as [Ho Hc]. now apply delay_rows_ok.
-      - eexists; split; [reflexivity|constructor]. }
-    rewrite Hh. cbn [bind]. rewrite Hrest. cbn [bind].
-    eexists; split; [reflexivity|]. apply Forall_app; split.
-    + eapply Forall_impl; [|exact Hfh]. intros r Hr. exists d. split; [now left|exact Hr].
-    + eapply Forall_impl; [|exact Hf]. intros r (d' & Hin & Hr). exists d'. split; [now right|exact Hr].
+  intros H. revert k. induction H as [|d ds [x Hx] _ IH]; intros k; cbn [delay_rows]; [eauto|].
+  rewrite Hx. cbn [bind]. destruct (IH (S k)) as [rest Hr]. rewrite Hr. cbn [bind]. destruct x; eauto.
 Qed.
 
-Lemma pseudo_rows_orig fixed data l :
-  pseudo_rows fixed data = Ok l ->
-  Forall (fun r => exists d, In d data /\ s_orig r = dr_label d) l.
+Lemma delay_rows_props cfg o lbl ids k ds r :
+  delay_rows cfg o lbl ids k ds = Ok r ->
+  Forall (fun x => s_orig x = lbl /\ s_time x <> None) (fst r) /\
+  map s_ann (fst r) = map (fun j => [PDelay ids j]) (snd r).
 Proof.
-  revert l; induction data as [|d data IH]; intros l H; cbn [pseudo_rows] in H.
-  - inversion H; constructor.
-  - apply bind_ok in H as (here & Hh & H). apply bind_ok in H as (rest & Hr & H).
-    inversion H; subst. apply Forall_app; split.
-    + assert (Forall (fun r => s_orig r = dr_label d) here) as Hf.
-      { destruct (b_delaytext (dr_body d)); [eapply delay_rows_orig; eauto|inversion Hh; constructor]. }
-      eapply Forall_impl; [|exact Hf]. intros r Hr'. exists d. split; [now left|exact Hr'].
-    + eapply Forall_impl; [|apply IH; exact Hr]. intros r (d' & Hin & Hr'). exists d'. split; [now right|exact Hr'].
+  revert k r; induction ds as [|d ds IH]; intros k r H; cbn [delay_rows] in H.
+  - inversion H; subst; cbn. split; [constructor|reflexivity].
+  - apply bind_ok in H as (dec & _ & H). apply bind_ok in H as (rest & Hr & H).
+    destruct (IH (S k) rest Hr) as (Hf & Ha).
+    destruct dec as [z|]; inversion H; subst; cbn [fst snd map].
+    + split; [constructor; [cbn; split; [reflexivity|discriminate]|exact Hf]|]. now rewrite Ha.
+    + split; assumption.
+Qed.
+
+(* without a numeric onset no group is ever moved *)
+Lemma delay_rows_no_onset cfg lbl ids k ds r :
+  delay_rows cfg None lbl ids k ds = Ok r -> r = ([], []).
+Proof.
+  revert k r; induction ds as [|d ds IH]; intros k r H; cbn [delay_rows] in H.
+  - now inversion H.
+  - apply bind_ok in H as (dec & Hd & H). apply bind_ok in H as (rest & Hr & H).
+    apply IH in Hr. subst rest.
+    assert (dec = None) as ->.
+    { unfold delay_decision in Hd. destruct (cf_fix_value cfg).
+      - destruct (value_as_default_unit (cf_fixed cfg) d) as [v|[]]; try discriminate; now inversion Hd.
+      - apply bind_ok in Hd as (v & _ & Hd). destruct v as [v|]; [discriminate|].
+        destruct (cf_fix_none cfg); [now inversion Hd|discriminate]. }
+    now inversion H.
+Qed.
+
+Definition drow_ok (cfg : config) (d : drow) : Prop :=
+  b_delaytext (dr_body d) = true -> Forall (decision_total cfg (dr_onset d)) (b_delays (dr_body d)).
+
+Lemma split_row_total cfg d : drow_ok cfg d -> exists x, split_row cfg d = Ok x.
+Proof.
+  intros H. unfold split_row. destruct (b_delaytext (dr_body d)) eqn:E; [|eauto].
+  destruct (delay_rows_total cfg (dr_onset d) (dr_label d) (ids_of (dr_body d)) 0 _ (H E)) as [r Hr].
+  rewrite Hr. cbn [bind]. eauto.
+Qed.
+
+Lemma split_row_props cfg d x :
+  split_row cfg d = Ok x ->
+  s_orig (fst x) = dr_label d /\ s_time (fst x) = dr_onset d /\
+  Forall (fun r => s_orig r = dr_label d /\ s_time r <> None) (snd x).
+Proof.
+  unfold split_row. intros H. destruct (b_delaytext (dr_body d)).
+  - apply bind_ok in H as (r & Hr & H). inversion H; subst; cbn.
+    split; [reflexivity|]. split; [reflexivity|]. now apply delay_rows_props in Hr as [Hr _].
+  - inversion H; subst; cbn. auto.
+Qed.
+
+(* the rows of split_df before sorting *)
+Definition split_rows (rs : list (srow * list srow)) : list srow := map fst rs ++ concat (map snd rs).
+
+Lemma split_rows_flat rs : Permutation (split_rows rs) (flat_map (fun x => fst x :: snd x) rs).
+Proof.
+  unfold split_rows. induction rs as [|x rs IH]; cbn; [reflexivity|].
+  apply perm_skip. rewrite <- IH. rewrite !app_assoc. apply Permutation_app_tail. apply Permutation_app_comm.
 Qed.
 
 Lemma merge_length l : length (merge_same_onset l) = length l.
@@ -230,6 +256,34 @@ Proof.
   destruct (s_time nxt) as [z'|] eqn:En; [|reflexivity].
   destruct (z =? z')%Z eqn:Ez; [|reflexivity].
   apply Z.eqb_eq in Ez; subst. exfalso. apply Hnotin. cbn. left. now rewrite En.
+Qed.
+
+Definition times_of (l : list srow) : list Z :=
+  flat_map (fun r => match s_time r with Some z => [z] | None => [] end) l.
+Definition norm (r : srow) : srow := match s_time r with Some _ => r | None => blank r end.
+
+(* with pairwise distinct numeric times nothing is merged; rows without a time are blanked *)
+Lemma merge_distinct_gen l : NoDup (times_of l) -> merge_same_onset l = map norm l.
+Proof.
+  induction l as [|r l IH]; intros Hn; cbn [merge_same_onset map]; [reflexivity|].
+  unfold norm at 1. unfold times_of in Hn. cbn [flat_map] in Hn. fold (times_of l) in Hn.
+  destruct (s_time r) as [z|] eqn:Er; cbn [app] in Hn.
+  - inversion Hn as [|? ? Hnotin Hn']; subst. rewrite (IH Hn').
+    destruct l as [|nxt l']; [reflexivity|]. cbn [map]. unfold norm at 1 3.
+    destruct (s_time nxt) as [z'|] eqn:En.
+    + rewrite En. destruct (z =? z')%Z eqn:Ez; [|reflexivity].
+      apply Z.eqb_eq in Ez; subst. exfalso. apply Hnotin. unfold times_of. cbn. rewrite En. now left.
+    + cbn [blank s_time]. rewrite En. reflexivity.
+  - now rewrite (IH Hn).
+Qed.
+
+Lemma times_of_perm l l' : Permutation l l' -> Permutation (times_of l) (times_of l').
+Proof.
+  induction 1; unfold times_of in *; cbn.
+  - reflexivity.
+  - now apply Permutation_app_head.
+  - rewrite !app_assoc. apply Permutation_app_tail. apply Permutation_app_comm.
+  - etransitivity; eauto.
 Qed.
 
 (* ------------------------------------------------------------------ the validator *)
@@ -346,9 +400,9 @@ Section Validator.
         * right. now apply IHc.
   Qed.
 
-  (* run_checks never raises when the mask is long enough *)
+  (* run_checks never raises when every mask lookup succeeds *)
   Lemma run_checks_ok adj mask data :
-    (forall m, mask = Some m -> Forall (fun d => dr_label d < length m) data) ->
+    (forall m, mask = Some m -> Forall (fun d => exists b, mask_lookup m d = Ok b) data) ->
     exists r, run_checks adj mask data = Ok r.
   Proof.
     intros Hm. induction data as [|d data IH]; cbn [FileValidate.run_checks]; [eauto|].
@@ -359,12 +413,10 @@ Section Validator.
       assert (exists skip, match ids_of (dr_body d) with
                            | [] => Ok true
                            | _ :: _ => match mask with
-                                       | Some m => match nth_error m (dr_label d) with
-                                                   | Some b => Ok b | None => Exn IndexError end
+                                       | Some m => mask_lookup m d
                                        | None => Ok false end end = Ok skip) as [skip Hs].
       { destruct (ids_of (dr_body d)); [eauto|]. destruct mask as [m|]; [|eauto].
-        specialize (Hm m eq_refl). inversion Hm as [|? ? Hd _]; subst.
-        destruct (nth_error m (dr_label d)) eqn:E; [eauto|]. apply nth_error_None in E. lia. }
+        specialize (Hm m eq_refl). inversion Hm as [|? ? Hd _]; subst. exact Hd. }
       rewrite Hs. cbn [bind]. destruct skip; [eauto|].
       destruct (truthy [PJoin (ids_of (dr_body d))]); eauto. }
     rewrite H1. cbn [bind].
@@ -396,70 +448,116 @@ Section Validator.
 
   (* ---------------- the split frame *)
 
-  Lemma split_ok fixed data :
-    Forall (drow_ok fixed) data ->
-    exists sp, split_delay_tags fixed data = Ok sp.
+  Lemma split_ok cfg data :
+    Forall (drow_ok cfg) data -> exists sp, split_delay_tags cfg data = Ok sp.
   Proof.
-    intros H. destruct (pseudo_rows_ok fixed data H) as (ps & Hps & _).
-    unfold split_delay_tags. rewrite Hps. cbn [bind]. eauto.
+    intros H. unfold split_delay_tags.
+    destruct (mapM_total (split_row cfg) data) as [rs Hrs].
+    { eapply Forall_impl; [|exact H]. intros d Hd. now apply split_row_total. }
+    rewrite Hrs. cbn [bind]. eauto.
   Qed.
 
-  Lemma split_props fixed data sp :
-    split_delay_tags fixed data = Ok sp ->
+  Definition split_out (cfg : config) (d : drow) : srow * list srow :=
+    match split_row cfg d with
+    | Ok x => x
+    | Exn _ => ({| s_time := dr_onset d; s_ann := []; s_orig := dr_label d |}, [])
+    end.
+
+  Lemma split_unfold cfg data sp :
+    split_delay_tags cfg data = Ok sp ->
+    sp = merge_same_onset (sort_by s_time (split_rows (map (split_out cfg) data))) /\
+    Forall (fun d => exists x, split_row cfg d = Ok x) data.
+  Proof.
+    unfold split_delay_tags. intros H. apply bind_ok in H as (rs & Hrs & H). inversion H; subst. clear H.
+    destruct (mapM_map _ (fun d => ({| s_time := dr_onset d; s_ann := []; s_orig := dr_label d |}, [])) _ _ Hrs)
+      as (-> & Hf).
+    split; [reflexivity|exact Hf].
+  Qed.
+
+  Lemma split_out_props cfg d :
+    s_orig (fst (split_out cfg d)) = dr_label d /\ s_time (fst (split_out cfg d)) = dr_onset d /\
+    Forall (fun r => s_orig r = dr_label d /\ s_time r <> None) (snd (split_out cfg d)).
+  Proof.
+    unfold split_out. destruct (split_row cfg d) as [x|e] eqn:E; [now apply (split_row_props cfg d x E)|].
+    cbn. auto.
+  Qed.
+
+  Lemma split_rows_orig cfg data :
+    Forall (fun r => In (s_orig r) (map dr_label data)) (split_rows (map (split_out cfg) data)).
+  Proof.
+    eapply Permutation_Forall; [symmetry; apply split_rows_flat|].
+    apply Forall_forall. intros r Hr. apply in_flat_map in Hr as (x & Hx & Hr).
+    apply in_map_iff in Hx as (d & <- & Hd). destruct (split_out_props cfg d) as (H1 & _ & H3).
+    destruct Hr as [<-|Hr].
+    - rewrite H1. now apply in_map.
+    - rewrite Forall_forall in H3. destruct (H3 r Hr) as [-> _]. now apply in_map.
+  Qed.
+
+  Lemma split_props cfg data sp :
+    split_delay_tags cfg data = Ok sp ->
     length data <= length sp /\ Forall (fun r => In (s_orig r) (map dr_label data)) sp.
   Proof.
-    unfold split_delay_tags. intros H. apply bind_ok in H as (ps & Hps & H). inversion H; subst.
-    split.
-    - rewrite merge_length, (Permutation_length (sort_by_perm _ _)), app_length. unfold base_rows.
-      rewrite map_length. lia.
+    intros H. apply split_unfold in H as (-> & _). split.
+    - rewrite merge_length, (Permutation_length (sort_by_perm _ _)). unfold split_rows.
+      rewrite app_length, !map_length. lia.
     - apply Forall_forall. intros r Hr.
-      assert (In (s_orig r) (map s_orig (merge_same_onset (sort_by s_time (base_rows data ++ ps))))) as Hin
-          by now apply in_map.
-      rewrite merge_orig in Hin.
-      apply in_map_iff in Hin as (r0 & Ho & Hin). rewrite <- Ho.
-      apply (Permutation_in _ (sort_by_perm _ _)) in Hin. apply in_app_or in Hin as [Hin|Hin].
-      + unfold base_rows in Hin. apply in_map_iff in Hin as (d & <- & Hd). cbn. now apply in_map.
-      + pose proof (pseudo_rows_orig _ _ _ Hps) as Hf. rewrite Forall_forall in Hf.
-        destruct (Hf r0 Hin) as (d & Hd & ->). now apply in_map.
+      assert (In (s_orig r) (map s_orig (merge_same_onset (sort_by s_time (split_rows (map (split_out cfg) data))))))
+        as Hin by now apply in_map.
+      rewrite merge_orig in Hin. apply in_map_iff in Hin as (r0 & Ho & Hin). rewrite <- Ho.
+      apply (Permutation_in _ (sort_by_perm _ _)) in Hin.
+      pose proof (split_rows_orig cfg data) as Hf. rewrite Forall_forall in Hf. now apply Hf.
   Qed.
 
   (* ================================================================== never raises *)
 
-  Definition onsets_ok (cfg : config) (t : list row) : Prop :=
-    Forall (fun r => r_onset r <> None) t \/ Forall (fun r => b_delaytext (r_body r) = false) t.
+  (* totality of the Delay-value function on the Delay groups of the table, for every onset of the table
+     (pairing-independent, so it also covers a scrambled frame) *)
+  Definition decisions_total (cfg : config) (t : list row) : Prop :=
+    forall o r d, In o (map r_onset t) -> In r t -> In d (b_delays (r_body r)) -> decision_total cfg o d.
 
-  Definition delays_convertible (cfg : config) (t : list row) : Prop :=
-    Forall (fun r => Forall (convertible (cf_fixed cfg)) (b_delays (r_body r))) t.
-
-  Lemma frame_drow_ok cfg t :
-    onsets_ok cfg t -> delays_convertible cfg t -> Forall (drow_ok (cf_fixed cfg)) (frame cfg t).
+  Lemma frame_drow_ok cfg t : decisions_total cfg t -> Forall (drow_ok cfg) (frame cfg t).
   Proof.
-    intros Ho Hd. eapply Forall_impl; [|apply frame_from_table].
-    intros d (_ & Hon & Hb) Hdt.
-    apply in_map_iff in Hb as (rb & Hrb & Hinb). apply in_map_iff in Hon as (ro & Hro & Hino).
-    unfold delays_convertible in Hd. rewrite Forall_forall in Hd.
-    split; [|rewrite <- Hrb; now apply Hd].
-    destruct Ho as [Ho|Ho]; rewrite Forall_forall in Ho.
-    - rewrite <- Hro. now apply Ho.
-    - specialize (Ho rb Hinb). rewrite Hrb in Ho. congruence.
+    intros Hd. eapply Forall_impl; [|apply frame_from_table].
+    intros d (_ & Hon & Hb) _.
+    apply in_map_iff in Hb as (rb & Hrb & Hinb). apply Forall_forall. intros x Hx.
+    apply (Hd _ rb); [exact Hon|exact Hinb|now rewrite Hrb].
   Qed.
 
   Lemma validate_never_raises cfg t :
-    onsets_ok cfg t -> delays_convertible cfg t -> exists l, validate cfg t = Ok l.
+    decisions_total cfg t -> exists l, validate cfg t = Ok l.
   Proof.
-    intros Ho Hd. unfold FileValidate.validate, FileValidate.validate_unsorted.
-    pose proof (frame_drow_ok cfg t Ho Hd) as Hok.
+    intros Hd. unfold FileValidate.validate, FileValidate.validate_unsorted.
+    pose proof (frame_drow_ok cfg t Hd) as Hok.
     destruct (cf_has_onset cfg).
-    - destruct (split_ok _ _ Hok) as [sp Hsp]. rewrite Hsp. cbn [bind].
-      destruct (run_checks_ok (row_adj cfg) (option_map (map (fun r => is_some (s_time r))) (Some sp)) (frame cfg t))
+    - destruct (split_ok _ _ Hok) as [sp Hsp]. rewrite Hsp. cbn [bind option_map].
+      destruct (run_checks_ok (row_adj cfg)
+                  (Some (if cf_fix_mask cfg then MLabel else MPos (map (fun r => is_some (s_time r)) sp))) (frame cfg t))
         as [r Hr].
-      { intros m Hm. cbn in Hm. inversion Hm; subst. rewrite map_length.
-        destruct (split_props _ _ _ Hsp) as [Hlen _]. rewrite frame_length in Hlen.
-        eapply Forall_impl; [|apply frame_from_table]. intros d (Hl & _). lia. }
+      { intros m Hm. inversion Hm; subst. clear Hm. destruct (cf_fix_mask cfg).
+        - apply Forall_forall. intros d _. cbn. eauto.
+        - destruct (split_props _ _ _ Hsp) as [Hlen _]. rewrite frame_length in Hlen.
+          eapply Forall_impl; [|apply frame_from_table]. intros d (Hl & _). cbn.
+          destruct (nth_error (map (fun r => is_some (s_time r)) sp) (dr_label d)) eqn:E; [eauto|].
+          apply nth_error_None in E. rewrite map_length in E. lia. }
       rewrite Hr. cbn [bind]. eauto.
-    - cbn [bind]. destruct (run_checks_ok (row_adj cfg) (option_map (map (fun r => is_some (s_time r))) None) (frame cfg t))
-        as [r Hr]; [intros m Hm; discriminate|].
+    - cbn [bind option_map]. destruct (run_checks_ok (row_adj cfg) None (frame cfg t)) as [r Hr]; [intros m Hm; discriminate|].
       rewrite Hr. cbn [bind]. eauto.
+  Qed.
+
+  (* the repaired code: the Delay-value function is total *)
+  Lemma decision_total_repaired cfg o d :
+    cf_fixed cfg = true -> cf_fix_none cfg = true -> cf_fix_value cfg = true -> decision_total cfg o d.
+  Proof.
+    intros H1 H2 H3. unfold decision_total, delay_decision. rewrite H1, H2, H3.
+    assert (Hv : (exists v, value_as_default_unit true d = Ok v) \/ value_as_default_unit true d = Exn ValueError).
+    { unfold value_as_default_unit. destruct (d_unit d) as [|[]|[]|]; destruct (d_num d); eauto. }
+    destruct Hv as [[v ->]| ->]; [|eauto]. destruct o; [|eauto]. destruct v; eauto.
+  Qed.
+
+  Lemma validate_never_raises_repaired cfg t :
+    cf_fixed cfg = true -> cf_fix_none cfg = true -> cf_fix_value cfg = true -> exists l, validate cfg t = Ok l.
+  Proof.
+    intros H1 H2 H3. apply validate_never_raises. intros o r d _ _ _. now apply decision_total_repaired.
   Qed.
 
   (* ================================================================== labels *)
@@ -528,9 +626,11 @@ Section Validator.
     validate cfg t = Ok l ->
     exists onsets ci,
       (if cf_has_onset cfg
-       then bind (split_delay_tags (cf_fixed cfg) (frame cfg t)) (fun sp => Ok (Some sp))
+       then bind (split_delay_tags cfg (frame cfg t)) (fun sp => Ok (Some sp))
        else Ok None) = Ok onsets /\
-      run_checks (row_adj cfg) (option_map (map (fun r => is_some (s_time r))) onsets) (frame cfg t) = Ok ci /\
+      run_checks (row_adj cfg)
+        (option_map (fun sp => if cf_fix_mask cfg then MLabel else MPos (map (fun r => is_some (s_time r)) sp)) onsets)
+        (frame cfg t) = Ok ci /\
       Permutation l (column_structure cfg (row_adj cfg) t
                      ++ (if needs_sorting cfg t then [mk SUnordered None None] else [])
                      ++ fst ci
@@ -668,29 +768,80 @@ Section Validator.
     unfold sr, at_row; cbn. apply Nat.eqb_neq in Hne. now rewrite Hne.
   Qed.
 
-  (* _run_checks when every row is masked (all onsets numeric): only the per-cell basic issues *)
+  (* exact result of _run_checks when the mask value g of every row is known *)
   Definition row_invalid (adj : nat) (d : drow) : bool :=
     existsb raw_is_error (snd (cells_loop (dr_label d + adj) (b_cells (dr_body d)) [])).
 
-  Lemma run_checks_masked adj m data r :
-    Forall (fun d => nth_error m (dr_label d) = Some true) data ->
+  Definition row_issues (adj : nat) (g : drow -> bool) (d : drow) : list issue :=
+    flat_map (cell_issues (dr_label d + adj)) (b_cells (dr_body d))
+    ++ (if row_invalid adj d then []
+        else match ids_of (dr_body d) with
+             | [] => []
+             | _ :: _ => if g d then []
+                         else if truthy [PJoin (ids_of (dr_body d))]
+                              then full_issues (dr_label d + adj) (dr_body d) else []
+             end).
+
+  Lemma row_checks_exact adj m g d r1 :
+    mask_lookup m d = Ok (g d) -> row_checks adj (Some m) d = Ok r1 ->
+    fst r1 = row_issues adj g d /\ snd r1 = row_invalid adj d.
+  Proof.
+    intros Hd H1. unfold FileValidate.row_checks in H1. unfold row_issues, row_invalid.
+    pose proof (cells_loop_fst (dr_label d + adj) (b_cells (dr_body d)) []) as Hf.
+    destruct (cells_loop (dr_label d + adj) (b_cells (dr_body d)) []) as [iss last]. cbn [fst snd] in *. subst iss.
+    destruct (existsb raw_is_error last).
+    - inversion H1; subst. cbn [fst snd]. now rewrite app_nil_r.
+    - apply bind_ok in H1 as (skip & Hs & H1).
+      destruct (ids_of (dr_body d)) as [|i0 ids0] eqn:Eids.
+      + inversion Hs; subst skip. inversion H1; subst. cbn [fst snd]. now rewrite app_nil_r.
+      + rewrite Hd in Hs. inversion Hs; subst skip. clear Hs.
+        destruct (g d).
+        * inversion H1; subst. cbn [fst snd]. now rewrite app_nil_r.
+        * destruct (truthy [PJoin (i0 :: ids0)]); inversion H1; subst; cbn [fst snd].
+          -- unfold full_issues. rewrite Eids. auto.
+          -- now rewrite app_nil_r.
+  Qed.
+
+  Lemma run_checks_exact adj m g data r :
+    Forall (fun d => mask_lookup m d = Ok (g d)) data ->
     run_checks adj (Some m) data = Ok r ->
-    fst r = flat_map (fun d => flat_map (cell_issues (dr_label d + adj)) (b_cells (dr_body d))) data /\
+    fst r = flat_map (row_issues adj g) data /\
     snd r = flat_map (fun d => if row_invalid adj d then [dr_label d] else []) data.
   Proof.
     intros Hm. revert r. induction Hm as [|d data Hd _ IH]; intros r H; cbn [FileValidate.run_checks] in H.
     - inversion H; subst; cbn. auto.
     - apply bind_ok in H as (r1 & H1 & H). apply bind_ok in H as (rest & H2 & H). inversion H; subst; cbn [fst snd flat_map].
-      destruct (IH rest H2) as (IHa & IHb). rewrite IHa, IHb. clear IH IHa IHb H.
-      unfold FileValidate.row_checks in H1. unfold row_invalid.
-      pose proof (cells_loop_fst (dr_label d + adj) (b_cells (dr_body d)) []) as Hf.
-      destruct (cells_loop (dr_label d + adj) (b_cells (dr_body d)) []) as [iss last]. cbn [fst snd] in *. subst iss.
-      destruct (existsb raw_is_error last).
-      + inversion H1; subst. auto.
-      + apply bind_ok in H1 as (skip & Hs & H1).
-        assert (skip = true) as ->.
-        { destruct (ids_of (dr_body d)); [congruence|]. rewrite Hd in Hs. congruence. }
-        inversion H1; subst. auto.
+      destruct (IH rest H2) as (IHa & IHb). rewrite IHa, IHb.
+      destruct (row_checks_exact _ _ _ _ _ Hd H1) as (Ha & Hb). rewrite Ha, Hb. auto.
+  Qed.
+
+  Lemma row_issues_rows adj g d :
+    Forall (fun i : issue => i_row i = Some (dr_label d + adj)) (row_issues adj g d).
+  Proof.
+    unfold row_issues. apply Forall_app; split.
+    - apply Forall_forall. intros i Hi. apply in_flat_map in Hi as (c & _ & Hi). unfold cell_issues in Hi.
+      destruct (c_skip c); [destruct Hi|]. apply in_map_iff in Hi as (x & <- & _). reflexivity.
+    - destruct (row_invalid adj d); [constructor|]. destruct (ids_of (dr_body d)); [constructor|].
+      destruct (g d); [constructor|]. destruct (truthy _); [|constructor].
+      unfold full_issues. apply Forall_app; split; apply Forall_forall; intros i Hi;
+        apply in_map_iff in Hi as (x & <- & _); reflexivity.
+  Qed.
+
+  Lemma sr_other_rows n (l : list issue) m :
+    m <> n -> Forall (fun i : issue => i_row i = Some m) l -> flat_map (sr n) l = [].
+  Proof.
+    intros Hne Hf. apply flat_map_nil. intros i Hi. rewrite Forall_forall in Hf.
+    unfold sr, at_row. rewrite (Hf i Hi). apply Nat.eqb_neq in Hne. now rewrite Hne.
+  Qed.
+
+  Lemma sr_full_issues rl b :
+    flat_map (sr rl) (full_issues rl b) = full [PJoin (ids_of b)] ++ banned [PJoin (ids_of b)].
+  Proof.
+    unfold full_issues. rewrite flat_map_app. f_equal.
+    - induction (full [PJoin (ids_of b)]) as [|x xs IHx]; cbn; [reflexivity|].
+      unfold sr at 1, at_row; cbn. rewrite Nat.eqb_refl. cbn. now rewrite IHx.
+    - induction (banned [PJoin (ids_of b)]) as [|x xs IHx]; cbn; [reflexivity|].
+      unfold sr at 1, at_row; cbn. rewrite Nat.eqb_refl. cbn. now rewrite IHx.
   Qed.
 
   (* string payload of _run_onset_checks at row n: independent of the temporal state *)
@@ -716,69 +867,58 @@ Section Validator.
     rewrite HA, HB. reflexivity.
   Qed.
 
-  (* pseudo rows, row by row *)
-  Definition here (fixed : bool) (d : drow) : res (list srow) :=
-    if b_delaytext (dr_body d)
-    then delay_rows fixed (dr_onset d) (dr_label d) (ids_of (dr_body d)) 0 (b_delays (dr_body d))
-    else Ok [].
-  Definition here_rows (fixed : bool) (d : drow) : list srow :=
-    match here fixed d with Ok l => l | Exn _ => [] end.
-
-  Lemma pseudo_rows_flat fixed data ps :
-    pseudo_rows fixed data = Ok ps ->
-    ps = flat_map (here_rows fixed) data /\ Forall (fun d => exists l, here fixed d = Ok l) data.
+  Lemma onset_payload_other adj invalid n r :
+    s_orig r + adj <> n -> onset_payload adj invalid n (norm r) = [].
   Proof.
-    revert ps; induction data as [|d data IH]; intros ps H; cbn [pseudo_rows] in H.
-    - inversion H; subst. split; [reflexivity|constructor].
-    - apply bind_ok in H as (h & Hh & H). apply bind_ok in H as (rest & Hr & H). inversion H; subst.
-      destruct (IH rest Hr) as (-> & Hf). cbn [flat_map].
-      assert (Hd : here_rows fixed d = h) by (unfold here_rows, here; now rewrite Hh).
-      rewrite Hd. split; [reflexivity|]. constructor; [|exact Hf]. exists h. exact Hh.
+    intros Hne. assert (Ho : s_orig (norm r) = s_orig r) by (unfold norm; destruct (s_time r); reflexivity).
+    unfold onset_payload. rewrite Ho. destruct (existsb _ invalid); [reflexivity|].
+    destruct (truthy _); [|reflexivity]. apply Nat.eqb_neq in Hne. now rewrite Hne.
   Qed.
 
-  Lemma delay_rows_anns fixed o lbl ids k ds l :
-    delay_rows fixed o lbl ids k ds = Ok l ->
-    map s_ann l = map (fun j => [PDelay ids j]) (seq k (length ds)) /\ Forall (fun r => s_orig r = lbl) l.
+  (* positions of the Delay groups that are moved out of the row *)
+  Fixpoint removed (cfg : config) (o : option Z) (k : nat) (ds : list delay) : list nat :=
+    match ds with
+    | [] => []
+    | d :: ds' => match delay_decision cfg o d with
+                  | Ok (Some _) => k :: removed cfg o (S k) ds'
+                  | _ => removed cfg o (S k) ds'
+                  end
+    end.
+
+  Lemma delay_rows_removed cfg o lbl ids k ds r :
+    delay_rows cfg o lbl ids k ds = Ok r -> snd r = removed cfg o k ds.
   Proof.
-    revert k l; induction ds as [|d ds IH]; intros k l H; cbn [delay_rows] in H.
-    - inversion H; subst. split; [reflexivity|constructor].
-    - apply bind_ok in H as (v & _ & H). apply bind_ok in H as (z & _ & H).
-      destruct v as [v|]; [|discriminate].
-      apply bind_ok in H as (rest & Hr & H). inversion H; subst.
-      destruct (IH (S k) rest Hr) as (Ha & Hf). cbn. rewrite Ha. split; [reflexivity|]. constructor; [reflexivity|exact Hf].
+    revert k r; induction ds as [|d ds IH]; intros k r H; cbn [delay_rows removed] in *.
+    - now inversion H.
+    - apply bind_ok in H as (dec & Hd & H). apply bind_ok in H as (rest & Hr & H). rewrite Hd.
+      apply IH in Hr. destruct dec; inversion H; subst; cbn [snd]; now rewrite Hr.
   Qed.
 
-  Definition pieces (b : body) : list piece :=
-    base_piece b :: (if b_delaytext b then map (PDelay (ids_of b)) (seq 0 (length (b_delays b))) else []).
+  (* the strings a row with a numeric onset is validated as: the row without the moved Delay groups,
+     and each moved Delay group *)
+  Definition pieces (cfg : config) (o : option Z) (b : body) : list piece :=
+    if b_delaytext b
+    then PRem (ids_of b) (removed cfg o 0 (b_delays b)) :: map (PDelay (ids_of b)) (removed cfg o 0 (b_delays b))
+    else [PCells (ids_of b)].
+
+  (* string-level row issues of a row: through _run_onset_checks when it has a numeric onset, through
+     _run_checks (with the banned temporal tags) otherwise *)
+  Definition row_payload (cfg : config) (r : row) : list raw :=
+    match r_onset r with
+    | Some _ => flat_map (fun p => if truthy [p] then full [p] else []) (pieces cfg (r_onset r) (r_body r))
+    | None => match ids_of (r_body r) with
+              | [] => []
+              | _ :: _ => if truthy [PJoin (ids_of (r_body r))]
+                          then full [PJoin (ids_of (r_body r))] ++ banned [PJoin (ids_of (r_body r))] else []
+              end
+    end.
 
   Definition cells_error_free (r : row) : Prop :=
     Forall (fun c => c_skip c = false -> existsb raw_is_error (basic (c_id c)) = false) (b_cells (r_body r)).
 
   (* effective times (onset, onset + Delay) of the rows of the split frame are pairwise distinct *)
   Definition distinct_times (cfg : config) (t : list row) : Prop :=
-    forall ps, pseudo_rows (cf_fixed cfg) (frame cfg t) = Ok ps ->
-               NoDup (map s_time (base_rows (frame cfg t) ++ ps)).
-
-  Lemma delay_rows_times fixed o lbl ids k ds l :
-    delay_rows fixed o lbl ids k ds = Ok l -> Forall (fun r => s_time r <> None) l.
-  Proof.
-    revert k l; induction ds as [|d ds IH]; intros k l H; cbn [delay_rows] in H.
-    - inversion H; constructor.
-    - apply bind_ok in H as (v & _ & H). apply bind_ok in H as (z & _ & H).
-      destruct v as [v|]; [|discriminate].
-      apply bind_ok in H as (rest & Hr & H). inversion H; subst.
-      constructor; [cbn; discriminate|]. eapply IH; eauto.
-  Qed.
-
-  Lemma pseudo_rows_times fixed data ps :
-    pseudo_rows fixed data = Ok ps -> Forall (fun r => s_time r <> None) ps.
-  Proof.
-    revert ps; induction data as [|d data IH]; intros ps H; cbn [pseudo_rows] in H.
-    - inversion H; constructor.
-    - apply bind_ok in H as (h & Hh & H). apply bind_ok in H as (rest & Hr & H). inversion H; subst.
-      apply Forall_app; split; [|now apply IH].
-      destruct (b_delaytext (dr_body d)); [eapply delay_rows_times; eauto|inversion Hh; constructor].
-  Qed.
+    NoDup (times_of (split_rows (map (split_out cfg) (frame cfg t)))).
 
   Lemma row_not_invalid cfg t k r (data : list drow) :
     Permutation data (indexed t) -> nth_error t k = Some r -> cells_error_free r ->
@@ -799,44 +939,53 @@ Section Validator.
 
   Lemma validate_row_equals_string cfg t l k r :
     validate cfg t = Ok l -> cf_has_onset cfg = true -> no_scramble cfg t ->
-    Forall (fun r => r_onset r <> None) t -> distinct_times cfg t ->
+    cf_fix_mask cfg = true \/ Forall (fun r => r_onset r <> None) t ->
+    distinct_times cfg t ->
     nth_error t k = Some r -> cells_error_free r ->
-    Permutation (string_raws l (k + row_adj cfg))
-                (flat_map basic (ids_of (r_body r))
-                 ++ flat_map (fun p => if truthy [p] then full [p] else []) (pieces (r_body r))).
+    Permutation (string_raws l (k + row_adj cfg)) (flat_map basic (ids_of (r_body r)) ++ row_payload cfg r).
   Proof.
-    intros H Hon Hns Hnum Hdist Hk Hfree.
+    intros H Hon Hns Hmk Hdist Hk Hfree.
     apply validate_unfold in H as (onsets & ci & Hsp & Hci & Hp).
     set (adj := row_adj cfg) in *. set (n := k + adj).
     rewrite Hon in Hsp. apply bind_ok in Hsp as (sp & Hsp & Ho). inversion Ho; subst onsets. clear Ho.
     unfold string_raws. rewrite (perm_flat_map (sr n) _ _ Hp). clear Hp l.
     pose proof (frame_perm cfg t Hns) as Hfp.
-    (* shape of the split frame *)
-    unfold split_delay_tags in Hsp. apply bind_ok in Hsp as (ps & Hps & Ho). inversion Ho; subst sp. clear Ho.
-    assert (Hall : Forall (fun r0 => s_time r0 <> None) (base_rows (frame cfg t) ++ ps)).
-    { apply Forall_app; split; [|eapply pseudo_rows_times; eauto].
-      unfold base_rows. apply Forall_forall. intros r0 Hr0. apply in_map_iff in Hr0 as (d & <- & Hd). cbn.
-      pose proof (frame_from_table cfg t) as Hft. rewrite Forall_forall in Hft. destruct (Hft d Hd) as (_ & Hin & _).
-      apply in_map_iff in Hin as (r1 & <- & Hr1). rewrite Forall_forall in Hnum. now apply Hnum. }
-    pose proof (sort_by_perm s_time (base_rows (frame cfg t) ++ ps)) as Hsort.
-    assert (Hmerge : merge_same_onset (sort_by s_time (base_rows (frame cfg t) ++ ps))
-                     = sort_by s_time (base_rows (frame cfg t) ++ ps)).
-    { apply merge_distinct.
-      - eapply Permutation_Forall; [symmetry; exact Hsort|exact Hall].
-      - eapply Permutation_NoDup; [apply Permutation_map; symmetry; exact Hsort|]. now apply Hdist. }
-    rewrite Hmerge in Hci. rewrite Hmerge.
-    (* the mask is all true *)
+    apply split_unfold in Hsp as (-> & Hrows).
+    set (X := split_rows (map (split_out cfg) (frame cfg t))) in *.
+    pose proof (sort_by_perm s_time X) as Hsort.
+    assert (Hmerge : merge_same_onset (sort_by s_time X) = map norm (sort_by s_time X)).
+    { apply merge_distinct_gen. eapply Permutation_NoDup; [symmetry; apply times_of_perm; exact Hsort|exact Hdist]. }
+    rewrite Hmerge in Hci. rewrite Hmerge. clear Hmerge.
+    (* the mask value of every row is "its onset is numeric" *)
     cbn [option_map] in Hci.
-    assert (Hmask : Forall (fun d => nth_error (map (fun r0 => is_some (s_time r0))
-                                (sort_by s_time (base_rows (frame cfg t) ++ ps))) (dr_label d) = Some true) (frame cfg t)).
-    { eapply Forall_impl; [|apply frame_from_table]. intros d (Hl & _).
-      destruct (nth_error (map (fun r0 => is_some (s_time r0)) (sort_by s_time (base_rows (frame cfg t) ++ ps))) (dr_label d)) eqn:E.
-      - apply nth_error_In in E. apply in_map_iff in E as (r0 & <- & Hr0).
-        apply (Permutation_in _ Hsort) in Hr0. rewrite Forall_forall in Hall. specialize (Hall r0 Hr0).
-        destruct (s_time r0); [reflexivity|congruence].
-      - apply nth_error_None in E. rewrite map_length, (Permutation_length Hsort), app_length in E.
-        unfold base_rows in E. rewrite map_length, frame_length in E. lia. }
-    destruct (run_checks_masked _ _ _ _ Hmask Hci) as (Hfst & Hsnd). rewrite Hfst, Hsnd. clear Hci Hfst Hsnd Hmask.
+    assert (Hmask : Forall (fun d => mask_lookup (if cf_fix_mask cfg then MLabel
+                                        else MPos (map (fun r0 => is_some (s_time r0)) (map norm (sort_by s_time X)))) d
+                                     = Ok (is_some (dr_onset d))) (frame cfg t)).
+    { destruct (cf_fix_mask cfg) eqn:Efm; [apply Forall_forall; intros d _; reflexivity|].
+      destruct Hmk as [Hmk|Hnum]; [discriminate|].
+      assert (Hall : Forall (fun r0 => s_time r0 <> None) X).
+      { eapply Permutation_Forall; [symmetry; apply split_rows_flat|].
+        apply Forall_forall. intros r0 Hr0. apply in_flat_map in Hr0 as (x & Hx & Hr0).
+        apply in_map_iff in Hx as (d & <- & Hd). destruct (split_out_props cfg d) as (_ & H2 & H3).
+        destruct Hr0 as [<-|Hr0].
+        - rewrite H2. pose proof (frame_from_table cfg t) as Hft. rewrite Forall_forall in Hft.
+          destruct (Hft d Hd) as (_ & Hin & _). apply in_map_iff in Hin as (r1 & <- & Hr1).
+          rewrite Forall_forall in Hnum. now apply Hnum.
+        - rewrite Forall_forall in H3. now destruct (H3 r0 Hr0). }
+      pose proof (frame_from_table cfg t) as Hft.
+      apply Forall_forall. intros d Hd. rewrite Forall_forall in Hft. destruct (Hft d Hd) as (Hl & Hin & _).
+      assert (Hdo : is_some (dr_onset d) = true).
+      { apply in_map_iff in Hin as (r1 & <- & Hr1). rewrite Forall_forall in Hnum. specialize (Hnum r1 Hr1).
+        destruct (r_onset r1); [reflexivity|congruence]. }
+      rewrite Hdo. cbn [mask_lookup].
+      destruct (nth_error (map (fun r0 => is_some (s_time r0)) (map norm (sort_by s_time X))) (dr_label d)) eqn:E.
+      - apply nth_error_In in E. apply in_map_iff in E as (r0 & <- & Hr0). apply in_map_iff in Hr0 as (r1 & <- & Hr1).
+        apply (Permutation_in _ Hsort) in Hr1. rewrite Forall_forall in Hall. specialize (Hall r1 Hr1).
+        unfold norm. destruct (s_time r1) eqn:E1; [now rewrite E1|congruence].
+      - apply nth_error_None in E. rewrite !map_length, (Permutation_length Hsort) in E.
+        unfold X, split_rows in E. rewrite app_length, !map_length, frame_length in E. lia. }
+    destruct (run_checks_exact _ _ _ _ _ Hmask Hci) as (Hfst & Hsnd). rewrite Hfst, Hsnd. clear Hci Hfst Hsnd Hmask.
+    set (g := fun d : drow => is_some (dr_onset d)).
     set (invalid := flat_map (fun d => if row_invalid adj d then [dr_label d] else []) (frame cfg t)).
     assert (Hinv : existsb (Nat.eqb k) invalid = false) by (eapply row_not_invalid; eauto).
     (* drop the parts that carry no string-level payload *)
@@ -853,59 +1002,150 @@ Section Validator.
     assert (Hun : flat_map (sr n) (if needs_sorting cfg t then [mk SUnordered None None] else []) = []).
     { destruct (needs_sorting cfg t); reflexivity. }
     rewrite Hun. cbn [app]. clear Hcs Hun.
-    rewrite onset_checks_string.
-    rewrite (perm_flat_map (onset_payload adj invalid n) _ _ Hsort). rewrite flat_map_app.
-    destruct (pseudo_rows_flat _ _ _ Hps) as (-> & Hhere).
-    unfold base_rows. rewrite flat_map_map', !flat_map_flat_map.
+    rewrite onset_checks_string, flat_map_map'.
+    rewrite (perm_flat_map (fun a => onset_payload adj invalid n (norm a)) _ _ Hsort).
+    unfold X. rewrite (perm_flat_map (fun a => onset_payload adj invalid n (norm a)) _ _ (split_rows_flat _)).
+    rewrite flat_map_map', !flat_map_flat_map.
     (* move from the frame to the table *)
     rewrite (perm_flat_map _ _ _ Hfp).
-    rewrite (perm_flat_map (fun a => onset_payload adj invalid n _) _ _ Hfp).
-    rewrite (perm_flat_map (fun a => flat_map (onset_payload adj invalid n) (here_rows (cf_fixed cfg) a)) _ _ Hfp).
-    assert (Hhere' : Forall (fun d => exists l0, here (cf_fixed cfg) d = Ok l0) (indexed t)).
-    { eapply Permutation_Forall; [exact Hfp|exact Hhere]. }
+    rewrite (perm_flat_map (fun a => flat_map (fun a0 => onset_payload adj invalid n (norm a0))
+                                       (fst (split_out cfg a) :: snd (split_out cfg a))) _ _ Hfp).
+    assert (Hrows' : Forall (fun d => exists x, split_row cfg d = Ok x) (indexed t)).
+    { eapply Permutation_Forall; [exact Hfp|exact Hrows]. }
     set (dk := {| dr_label := 0 + k; dr_onset := r_onset r; dr_body := r_body r |}).
     unfold indexed.
     rewrite (flat_map_indexed_single _ 0 t k r Hk).
-    2:{ intros d Hd. apply sr_cells_other. unfold n. cbn in Hd. lia. }
+    2:{ intros d Hd. eapply sr_other_rows; [|apply row_issues_rows]. unfold n. cbn in Hd. lia. }
     rewrite (flat_map_indexed_single _ 0 t k r Hk).
-    2:{ intros d Hd. unfold onset_payload; cbn [s_orig s_ann].
-        destruct (existsb (Nat.eqb (dr_label d)) invalid); [reflexivity|].
-        destruct (truthy _); [|reflexivity]. destruct (Nat.eqb (dr_label d + adj) n) eqn:E; [|reflexivity].
-        apply Nat.eqb_eq in E. unfold n in E. cbn in Hd. lia. }
-    rewrite (flat_map_indexed_single _ 0 t k r Hk).
-    2:{ intros d Hd. apply flat_map_nil. intros r0 Hr0. unfold here_rows, here in Hr0.
-        destruct (b_delaytext (dr_body d)); [|destruct Hr0].
-        destruct (delay_rows _ _ _ _ _ _) as [l0|] eqn:E; [|destruct Hr0].
-        apply delay_rows_orig in E. rewrite Forall_forall in E. specialize (E r0 Hr0).
-        unfold onset_payload. rewrite E. destruct (existsb (Nat.eqb (dr_label d)) invalid); [reflexivity|].
-        destruct (truthy _); [|reflexivity]. destruct (Nat.eqb (dr_label d + adj) n) eqn:E2; [|reflexivity].
-        apply Nat.eqb_eq in E2. unfold n in E2. cbn in Hd. lia. }
-    fold dk. cbn [dr_label dr_body dk].
-    replace (0 + k + adj) with n by (unfold n; lia).
-    rewrite sr_cells_same. fold (ids_of (r_body r)).
-    apply Permutation_app_head. unfold pieces. cbn [flat_map].
-    (* the row itself *)
-    unfold onset_payload at 1; cbn [s_orig s_ann]. replace (0 + k) with k by lia. rewrite Hinv.
-    replace (Nat.eqb (k + adj) n) with true by (symmetry; apply Nat.eqb_eq; reflexivity).
-    apply Permutation_app_head.
-    (* its Delay groups *)
+    2:{ intros d Hd. apply flat_map_nil. intros r0 Hr0. apply onset_payload_other.
+        destruct (split_out_props cfg d) as (H1 & _ & H3).
+        assert (s_orig r0 = dr_label d) as ->.
+        { destruct Hr0 as [<-|Hr0]; [exact H1|]. rewrite Forall_forall in H3. now destruct (H3 r0 Hr0). }
+        unfold n. cbn in Hd. lia. }
+    fold dk.
     assert (Hin : In dk (indexed_from 0 t)).
     { apply (nth_error_In _ k). apply (indexed_from_nth_inv 0 t k r Hk). }
-    rewrite Forall_forall in Hhere'. destruct (Hhere' dk Hin) as (l0 & Hl0).
-    unfold here_rows. rewrite Hl0. unfold here in Hl0. cbn [dr_body dr_label dr_onset dk] in Hl0.
-    destruct (b_delaytext (r_body r)); [|inversion Hl0; subst; reflexivity].
-    apply delay_rows_anns in Hl0 as (Hanns & Horig).
-    assert (Hgen : forall (l1 : list srow) (js : list nat),
-               map s_ann l1 = map (fun j => [PDelay (ids_of (r_body r)) j]) js ->
-               Forall (fun r0 => s_orig r0 = 0 + k) l1 ->
-               flat_map (onset_payload adj invalid n) l1 =
-               flat_map (fun p => if truthy [p] then full [p] else []) (map (PDelay (ids_of (r_body r))) js)).
-    { induction l1 as [|r1 l1 IH1]; intros js Hm Hf; destruct js as [|j js]; try discriminate; [reflexivity|].
-      cbn in Hm. inversion Hm as [[Ha Hm']]. inversion Hf as [|? ? Ho1 Hf']; subst.
-      cbn [flat_map map]. rewrite (IH1 js Hm' Hf'). f_equal.
-      unfold onset_payload. rewrite Ho1, Ha. replace (0 + k) with k by lia. rewrite Hinv.
-      replace (Nat.eqb (k + adj) n) with true by (symmetry; apply Nat.eqb_eq; reflexivity). reflexivity. }
-    rewrite (Hgen l0 _ Hanns Horig). reflexivity.
+    rewrite Forall_forall in Hrows'. destruct (Hrows' dk Hin) as (xk & Hxk).
+    assert (Hout : split_out cfg dk = xk) by (unfold split_out; now rewrite Hxk).
+    rewrite Hout. clear Hrows' Hrows Hin.
+    (* the row's own issues of _run_checks *)
+    unfold row_issues. rewrite flat_map_app. cbn [dr_label dr_body dk].
+    replace (0 + k + adj) with n by (unfold n; lia).
+    rewrite sr_cells_same. fold (ids_of (r_body r)). rewrite <- app_assoc. apply Permutation_app_head.
+    assert (Hri : row_invalid adj dk = false).
+    { destruct (row_invalid adj dk) eqn:Ei; [|reflexivity]. exfalso.
+      unfold row_invalid in Ei. cbn [dr_label dr_body dk] in Ei.
+      destruct (cells_loop_snd (0 + k + adj) (b_cells (r_body r)) []) as [Hl|(c & Hc & Hs & Hl)];
+        rewrite Hl in Ei; [discriminate|].
+      unfold cells_error_free in Hfree. rewrite Forall_forall in Hfree. rewrite (Hfree c Hc Hs) in Ei. discriminate. }
+    rewrite Hri. unfold g. cbn [dr_onset dk]. unfold row_payload.
+    unfold split_row in Hxk. cbn [dr_label dr_onset dr_body dk] in Hxk.
+    destruct (r_onset r) as [z|] eqn:Eo; cbn [is_some].
+    - (* numeric onset: everything comes from _run_onset_checks *)
+      assert (Hnil : flat_map (sr n) (match ids_of (r_body r) with [] => [] | _ :: _ => [] end) = [])
+        by (destruct (ids_of (r_body r)); reflexivity).
+      rewrite Hnil. cbn [app]. clear Hnil. unfold pieces.
+      destruct (b_delaytext (r_body r)).
+      + apply bind_ok in Hxk as (dr & Hdr & Hxk). inversion Hxk; subst xk. clear Hxk. cbn [fst snd flat_map].
+        pose proof (delay_rows_removed _ _ _ _ _ _ _ Hdr) as Hrem. rewrite <- Hrem.
+        destruct (delay_rows_props _ _ _ _ _ _ _ Hdr) as (Hfp2 & Hanns).
+        unfold norm at 1. cbn [s_time]. unfold onset_payload at 1. cbn [s_orig s_ann].
+        replace (0 + k) with k by lia. rewrite Hinv.
+        replace (Nat.eqb (k + adj) n) with true by (symmetry; apply Nat.eqb_eq; reflexivity).
+        apply Permutation_app_head.
+        assert (Hgen : forall (l1 : list srow) (js : list nat),
+                   map s_ann l1 = map (fun j => [PDelay (ids_of (r_body r)) j]) js ->
+                   Forall (fun r0 => s_orig r0 = 0 + k /\ s_time r0 <> None) l1 ->
+                   flat_map (fun a0 => onset_payload adj invalid n (norm a0)) l1 =
+                   flat_map (fun p => if truthy [p] then full [p] else []) (map (PDelay (ids_of (r_body r))) js)).
+        { induction l1 as [|r1 l1 IH1]; intros js Hm Hf; destruct js as [|j js]; try discriminate; [reflexivity|].
+          cbn in Hm. inversion Hm as [[Ha Hm']]. inversion Hf as [|? ? [Ho1 Ht1] Hf']; subst.
+          cbn [flat_map map]. rewrite (IH1 js Hm' Hf'). f_equal.
+          unfold norm. destruct (s_time r1); [|congruence].
+          unfold onset_payload. rewrite Ho1, Ha. replace (0 + k) with k by lia. rewrite Hinv.
+          replace (Nat.eqb (k + adj) n) with true by (symmetry; apply Nat.eqb_eq; reflexivity). reflexivity. }
+        rewrite (Hgen (fst dr) (snd dr) Hanns Hfp2). reflexivity.
+      + inversion Hxk; subst xk. clear Hxk. cbn [fst snd flat_map].
+        unfold norm. cbn [s_time]. unfold onset_payload. cbn [s_orig s_ann].
+        replace (0 + k) with k by lia. rewrite Hinv.
+        replace (Nat.eqb (k + adj) n) with true by (symmetry; apply Nat.eqb_eq; reflexivity).
+        rewrite !app_nil_r. reflexivity.
+    - (* no numeric onset: the full checks of _run_checks; nothing from _run_onset_checks *)
+      assert (Hons : flat_map (fun a0 => onset_payload adj invalid n (norm a0)) (fst xk :: snd xk) = []).
+      { destruct (b_delaytext (r_body r)).
+        - apply bind_ok in Hxk as (dr & Hdr & Hxk). inversion Hxk; subst xk. clear Hxk.
+          apply delay_rows_no_onset in Hdr. subst dr. cbn [fst snd flat_map].
+          unfold norm. cbn [s_time blank]. unfold onset_payload. cbn [s_ann s_orig truthy].
+          destruct (existsb _ invalid); reflexivity.
+        - inversion Hxk; subst xk. cbn [fst snd flat_map].
+          unfold norm. cbn [s_time blank]. unfold onset_payload. cbn [s_ann s_orig truthy].
+          destruct (existsb _ invalid); reflexivity. }
+      rewrite Hons, app_nil_r.
+      destruct (ids_of (r_body r)) as [|i0 ids0] eqn:Eids; [reflexivity|].
+      destruct (truthy [PJoin (i0 :: ids0)]) eqn:Et; [|reflexivity].
+      replace (0 + k + adj) with n by (unfold n; lia).
+      rewrite sr_full_issues, Eids. reflexivity.
+  Qed.
+
+  (* ================================================================== the issue list, up to order *)
+
+  Lemma split_rows_times_numeric cfg t :
+    Forall (fun r => r_onset r <> None) t ->
+    Forall (fun r0 => s_time r0 <> None) (split_rows (map (split_out cfg) (frame cfg t))).
+  Proof.
+    intros Hnum. eapply Permutation_Forall; [symmetry; apply split_rows_flat|].
+    apply Forall_forall. intros r0 Hr0. apply in_flat_map in Hr0 as (x & Hx & Hr0).
+    apply in_map_iff in Hx as (d & <- & Hd). destruct (split_out_props cfg d) as (_ & H2 & H3).
+    destruct Hr0 as [<-|Hr0].
+    - rewrite H2. pose proof (frame_from_table cfg t) as Hft. rewrite Forall_forall in Hft.
+      destruct (Hft d Hd) as (_ & Hin & _). apply in_map_iff in Hin as (r1 & <- & Hr1).
+      rewrite Forall_forall in Hnum. now apply Hnum.
+    - rewrite Forall_forall in H3. now destruct (H3 r0 Hr0).
+  Qed.
+
+  Lemma validate_shape cfg t l :
+    validate cfg t = Ok l -> cf_has_onset cfg = true ->
+    cf_fix_mask cfg = true \/ Forall (fun r => r_onset r <> None) t ->
+    distinct_times cfg t ->
+    Permutation l
+      (column_structure cfg (row_adj cfg) t
+       ++ (if needs_sorting cfg t then [mk SUnordered None None] else [])
+       ++ flat_map (row_issues (row_adj cfg) (fun d => is_some (dr_onset d))) (frame cfg t)
+       ++ onset_checks (row_adj cfg)
+            (flat_map (fun d => if row_invalid (row_adj cfg) d then [dr_label d] else []) (frame cfg t)) tinit
+            (map norm (sort_by s_time (split_rows (map (split_out cfg) (frame cfg t))))))
+    /\ Forall (fun d => exists x, split_row cfg d = Ok x) (frame cfg t).
+  Proof.
+    intros H Hon Hmk Hdist.
+    apply validate_unfold in H as (onsets & ci & Hsp & Hci & Hp).
+    set (adj := row_adj cfg) in *.
+    rewrite Hon in Hsp. apply bind_ok in Hsp as (sp & Hsp & Ho). inversion Ho; subst onsets. clear Ho.
+    apply split_unfold in Hsp as (-> & Hrows). split; [|exact Hrows].
+    set (X := split_rows (map (split_out cfg) (frame cfg t))) in *.
+    pose proof (sort_by_perm s_time X) as Hsort.
+    assert (Hmerge : merge_same_onset (sort_by s_time X) = map norm (sort_by s_time X)).
+    { apply merge_distinct_gen. eapply Permutation_NoDup; [symmetry; apply times_of_perm; exact Hsort|exact Hdist]. }
+    rewrite Hmerge in Hci, Hp. clear Hmerge.
+    cbn [option_map] in Hci.
+    assert (Hmask : Forall (fun d => mask_lookup (if cf_fix_mask cfg then MLabel
+                                        else MPos (map (fun r0 => is_some (s_time r0)) (map norm (sort_by s_time X)))) d
+                                     = Ok (is_some (dr_onset d))) (frame cfg t)).
+    { destruct (cf_fix_mask cfg) eqn:Efm; [apply Forall_forall; intros d _; reflexivity|].
+      destruct Hmk as [Hmk|Hnum]; [discriminate|].
+      pose proof (split_rows_times_numeric cfg t Hnum) as Hall. fold X in Hall.
+      pose proof (frame_from_table cfg t) as Hft.
+      apply Forall_forall. intros d Hd. rewrite Forall_forall in Hft. destruct (Hft d Hd) as (Hl & Hin & _).
+      assert (Hdo : is_some (dr_onset d) = true).
+      { apply in_map_iff in Hin as (r1 & <- & Hr1). rewrite Forall_forall in Hnum. specialize (Hnum r1 Hr1).
+        destruct (r_onset r1); [reflexivity|congruence]. }
+      rewrite Hdo. cbn [mask_lookup].
+      destruct (nth_error (map (fun r0 => is_some (s_time r0)) (map norm (sort_by s_time X))) (dr_label d)) eqn:E.
+      - apply nth_error_In in E. apply in_map_iff in E as (r0 & <- & Hr0). apply in_map_iff in Hr0 as (r1 & <- & Hr1).
+        apply (Permutation_in _ Hsort) in Hr1. rewrite Forall_forall in Hall. specialize (Hall r1 Hr1).
+        unfold norm. destruct (s_time r1) eqn:E1; [now rewrite E1|congruence].
+      - apply nth_error_None in E. rewrite !map_length, (Permutation_length Hsort) in E.
+        unfold X, split_rows in E. rewrite app_length, !map_length, frame_length in E. lia. }
+    destruct (run_checks_exact _ _ _ _ _ Hmask Hci) as (Hfst & Hsnd). rewrite Hfst, Hsnd in Hp. exact Hp.
   Qed.
 
   (* ================================================================== the out-of-order warning *)
@@ -962,14 +1202,14 @@ Section Validator.
     destruct (needs_sorting cfg t); reflexivity.
   Qed.
 
-  (* ================================================================== shuffling (partial) *)
+  (* ================================================================== shuffling: rows follow *)
 
   (* the string-level payload reported for a row with error-free cells is the same wherever the row stands *)
   Lemma validate_shuffle_rows_follow cfg t t' l l' k k' r :
     Permutation t t' ->
     validate cfg t = Ok l -> validate cfg t' = Ok l' ->
     cf_has_onset cfg = true -> no_scramble cfg t -> no_scramble cfg t' ->
-    Forall (fun r => r_onset r <> None) t ->
+    cf_fix_mask cfg = true \/ Forall (fun r => r_onset r <> None) t ->
     distinct_times cfg t -> distinct_times cfg t' ->
     nth_error t k = Some r -> nth_error t' k' = Some r -> cells_error_free r ->
     Permutation (string_raws l (k + row_adj cfg)) (string_raws l' (k' + row_adj cfg)).
@@ -977,7 +1217,7 @@ Section Validator.
     intros Hp H H' Hon Hns Hns' Hnum Hd Hd' Hk Hk' Hfree.
     rewrite (validate_row_equals_string cfg t l k r H Hon Hns Hnum Hd Hk Hfree).
     symmetry. apply (validate_row_equals_string cfg t' l' k' r H' Hon Hns'); auto.
-    eapply Permutation_Forall; eauto.
+    destruct Hnum as [Hm|Hnum]; [now left|right]. eapply Permutation_Forall; eauto.
   Qed.
 End Validator.
 
@@ -991,8 +1231,11 @@ Definition w_nonempty (a : ann) : bool := true.
 Definition w_temporal (st : nat) (a : ann) : nat * list nat := (S st, [10 + st]).
 Definition w_validate := validate nat w_err w_basic w_full w_banned w_nonempty nat w_temporal 0 [] [].
 
-Definition cfg0 (refs fixed : bool) : config :=
-  {| cf_header := true; cf_has_onset := true; cf_has_refs := refs; cf_cats := []; cf_fixed := fixed |}.
+(* refs: curly-brace scrambling (before fd59dc0); fixed: case-insensitive unit lookup (f83491d);
+   rep: the repairs fix-F2, fix-F3, fix-F4 *)
+Definition cfg0 (refs fixed rep : bool) : config :=
+  {| cf_header := true; cf_has_onset := true; cf_has_refs := refs; cf_cats := []; cf_fixed := fixed;
+     cf_fix_none := rep; cf_fix_value := rep; cf_fix_mask := rep |}.
 Definition plain_row (o : option Z) (id : N) : row :=
   {| r_onset := o; r_body := {| b_cells := [{| c_col := 1; c_id := id; c_skip := false |}]; b_badkeys := [];
                                 b_delaytext := false; b_delays := [] |} |}.
@@ -1011,18 +1254,24 @@ Definition t_years : list row :=
 Definition accepted_convertible (d : delay) : Prop :=
   d_num d <> None /\ (d_unit d = UNone \/ d_unit d = UKey true \/ d_unit d = UCase true).
 
-Lemma accepted_convertible_fixed d : accepted_convertible d -> convertible true d.
+Lemma accepted_decision_fixed cfg o d :
+  cf_fixed cfg = true -> o <> None -> accepted_convertible d -> decision_total cfg o d.
 Proof.
-  intros [Hn Hu]. unfold convertible, value_as_default_unit.
-  destruct (d_num d) as [v|]; [|congruence]. exists v.
-  destruct Hu as [->|[->| ->]]; reflexivity.
+  intros Hf Ho [Hn Hu]. unfold decision_total, delay_decision. rewrite Hf.
+  assert (Hv : exists v, value_as_default_unit true d = Ok (Some v)).
+  { unfold value_as_default_unit. destruct (d_num d) as [v|]; [|congruence]. exists v.
+    destruct Hu as [->|[->| ->]]; reflexivity. }
+  destruct Hv as [v ->]. destruct o as [z|]; [|congruence].
+  destruct (cf_fix_value cfg); cbn; eauto.
 Qed.
+
+(* ---- records of the defects before the repairs (rep = false, and fixed / refs as they then were) ---- *)
 
 Lemma never_raises_refuted :
   exists t, Forall (fun r => r_onset r <> None) t /\
             Forall (fun r => Forall accepted_convertible (b_delays (r_body r))) t /\
-            w_validate (cfg0 false false) t = Exn TypeError /\
-            exists l, w_validate (cfg0 false true) t = Ok l.
+            w_validate (cfg0 false false false) t = Exn TypeError /\
+            exists l, w_validate (cfg0 false true false) t = Ok l.
 Proof.
   exists t_seconds. split; [|split; [|split]].
   - repeat constructor; discriminate.
@@ -1031,17 +1280,35 @@ Proof.
   - vm_compute. eexists. reflexivity.
 Qed.
 
-(* an accepted unit WITHOUT conversion factor (month, year) raises even with the case-insensitive lookup *)
+(* C07-F2 before fix-F2: an accepted unit WITHOUT conversion factor (month, year) raised TypeError;
+   the repaired code validates the same table *)
 Lemma never_raises_no_factor_refuted :
-  w_validate (cfg0 false true) t_years = Exn TypeError.
-Proof. vm_compute. reflexivity. Qed.
+  w_validate (cfg0 false true false) t_years = Exn TypeError /\
+  exists l, w_validate (cfg0 false true true) t_years = Ok l.
+Proof. split; [vm_compute; reflexivity|vm_compute; eexists; reflexivity]. Qed.
+
+(* C07-F3 before fix-F3: a non-numeric Delay value ("Delay/abc s") or a Delay in a row with n/a onset raised
+   ValueError; the repaired code validates the same tables *)
+Definition t_abc : list row :=
+  [delay_row (Some 1000000%Z) 5 {| d_num := None; d_unit := UKey true |}; plain_row (Some 2000000%Z) 6].
+Definition t_na_delay : list row :=
+  [delay_row None 5 {| d_num := Some 1000000%Z; d_unit := UKey true |}; plain_row (Some 2000000%Z) 6].
+Lemma never_raises_value_refuted :
+  w_validate (cfg0 false true false) t_abc = Exn ValueError /\
+  w_validate (cfg0 false true false) t_na_delay = Exn ValueError /\
+  (exists l, w_validate (cfg0 false true true) t_abc = Ok l) /\
+  (exists l, w_validate (cfg0 false true true) t_na_delay = Ok l).
+Proof.
+  split; [vm_compute; reflexivity|]. split; [vm_compute; reflexivity|].
+  split; vm_compute; eexists; reflexivity.
+Qed.
 
 (* curly-brace reference + unsorted file: the error of the cell in file row 3 (index 1) is labelled row 2 *)
 Definition t_refs : list row := [plain_row (Some 3%Z) 5; plain_row (Some 1%Z) 9; plain_row (Some 2%Z) 6].
 
 Lemma true_location_refuted :
-  exists l, w_validate (cfg0 true true) t_refs = Ok l /\
-            ~ Forall (true_location nat w_basic (cfg0 true true) t_refs) l.
+  exists l, w_validate (cfg0 true true false) t_refs = Ok l /\
+            ~ Forall (true_location nat w_basic (cfg0 true true false) t_refs) l.
 Proof.
   eexists. split; [vm_compute; reflexivity|].
   intros H. rewrite Forall_forall in H.
@@ -1052,52 +1319,56 @@ Proof.
   cbn in Hin. destruct Hin as [<-|[]]. cbn in Hx. exact Hx.
 Qed.
 
-(* n/a onset: the row-level issue of the row in file row 2 is lost although all other hypotheses hold *)
+(* C07-F4 before fix-F4: with an n/a onset the row-level issue of the row in file row 2 was lost although all
+   other hypotheses hold; with the mask indexed by label (rep = true) the equation holds (general theorem) *)
 Definition t_na : list row := [plain_row None 5; plain_row (Some 2%Z) 6].
 
 Lemma row_equals_string_na_refuted :
-  exists l, w_validate (cfg0 false true) t_na = Ok l /\
+  exists l, w_validate (cfg0 false true false) t_na = Ok l /\
             cells_error_free nat w_err w_basic (plain_row None 5) /\
-            no_scramble (cfg0 false true) t_na /\ distinct_times (cfg0 false true) t_na /\
+            no_scramble (cfg0 false true false) t_na /\ distinct_times (cfg0 false true false) t_na /\
             ~ Permutation (string_raws nat l 2)
                 (flat_map w_basic (ids_of (r_body (plain_row None 5)))
-                 ++ flat_map (fun p => if truthy w_nonempty [p] then w_full [p] else []) (pieces (r_body (plain_row None 5)))).
+                 ++ row_payload nat w_full w_banned w_nonempty (cfg0 false true false) (plain_row None 5)).
 Proof.
   eexists. split; [vm_compute; reflexivity|]. split; [|split; [|split]].
   - repeat constructor.
   - now left.
-  - intros ps Hps. vm_compute in Hps. inversion Hps; subst. vm_compute.
-    constructor; [intros [H|[]]; discriminate|]. constructor; [intros []|constructor].
+  - unfold distinct_times. vm_compute. constructor; [intros []|constructor].
   - vm_compute. intros H. apply Permutation_nil in H. discriminate.
 Qed.
 
-(* non-vacuity: a table with a Delay group meeting every hypothesis of validate_row_equals_string *)
+(* non-vacuity: an unsorted table with a movable Delay group, a Delay group that stays (years), and a row
+   without onset meets every hypothesis of validate_row_equals_string for the repaired code *)
 Definition t_ok : list row :=
   [plain_row (Some 2000000%Z) 6;
-   delay_row (Some 1000000%Z) 5 {| d_num := Some 3000000%Z; d_unit := UKey true |}].
+   {| r_onset := Some 1000000%Z;
+      r_body := {| b_cells := [{| c_col := 1; c_id := 5; c_skip := false |}]; b_badkeys := []; b_delaytext := true;
+                   b_delays := [{| d_num := Some 3000000%Z; d_unit := UKey true |};
+                                {| d_num := Some 0%Z; d_unit := UKey false |}] |} |};
+   plain_row None 7].
 
 Lemma row_equals_string_nonvacuous :
-  exists l, w_validate (cfg0 false false) t_ok = Ok l /\
-            no_scramble (cfg0 false false) t_ok /\ distinct_times (cfg0 false false) t_ok /\
-            Forall (fun r => r_onset r <> None) t_ok /\
-            cells_error_free nat w_err w_basic (delay_row (Some 1000000%Z) 5 {| d_num := Some 3000000%Z; d_unit := UKey true |}) /\
-            string_raws nat l 3 = [2; 2] /\ needs_sorting (cfg0 false false) t_ok = true /\
-            count_unordered nat l = 1.
+  exists l, w_validate (cfg0 false true true) t_ok = Ok l /\
+            no_scramble (cfg0 false true true) t_ok /\ distinct_times (cfg0 false true true) t_ok /\
+            Forall (cells_error_free nat w_err w_basic) t_ok /\
+            string_raws nat l 3 = [2; 2] /\ string_raws nat l 4 = [2] /\
+            needs_sorting (cfg0 false true true) t_ok = true /\ count_unordered nat l = 1.
 Proof.
   eexists. split; [vm_compute; reflexivity|]. split; [|split; [|split; [|split; [|split; [|split]]]]].
   - now left.
-  - intros ps Hps. vm_compute in Hps. inversion Hps; subst. vm_compute.
+  - unfold distinct_times. vm_compute.
     constructor; [intros [H|[H|[]]]; discriminate|].
     constructor; [intros [H|[]]; discriminate|]. constructor; [intros []|constructor].
-  - repeat constructor; discriminate.
   - repeat constructor.
   - vm_compute. reflexivity.
   - vm_compute. reflexivity.
   - vm_compute. reflexivity.
+  - vm_compute. reflexivity.
 Qed.
 
-(* with the case-insensitive unit lookup, every accepted spelling of a unit that has a conversion factor
-   is convertible: file validation never raises on numeric onsets *)
+(* with the case-insensitive unit lookup alone (before fix-F2/F3): numeric onsets and accepted spellings of
+   units that have a conversion factor never raise *)
 Lemma validate_never_raises_fixed (raw : Type) raw_is_error basic full banned nonempty (tstate : Type) temporal tinit
       (pre post : list raw) cfg t :
   cf_fixed cfg = true ->
@@ -1105,7 +1376,8 @@ Lemma validate_never_raises_fixed (raw : Type) raw_is_error basic full banned no
   Forall (fun r => Forall accepted_convertible (b_delays (r_body r))) t ->
   exists l, validate raw raw_is_error basic full banned nonempty tstate temporal tinit pre post cfg t = Ok l.
 Proof.
-  intros Hf Hn Hd. apply validate_never_raises; [now left|].
-  unfold delays_convertible. rewrite Hf. eapply Forall_impl; [|exact Hd].
-  intros r Hr. eapply Forall_impl; [|exact Hr]. apply accepted_convertible_fixed.
+  intros Hf Hn Hd. apply validate_never_raises. intros o r d Ho Hr Hdd.
+  apply accepted_decision_fixed; [exact Hf| |].
+  - apply in_map_iff in Ho as (r0 & <- & Hr0). rewrite Forall_forall in Hn. now apply Hn.
+  - rewrite Forall_forall in Hd. specialize (Hd r Hr). rewrite Forall_forall in Hd. now apply Hd.
 Qed.
